@@ -72,6 +72,8 @@ Fixpoint feed (fuel : nat) (T : tables) (st : list N) (t : positive) (acc : list
 
 (* reductions allowed between two shifts *)
 Definition feed_fuel : nat := 400.
+(* never let simpl/cbn unroll the fuel; vm_compute ignores this *)
+Global Opaque feed_fuel.
 
 (* [run silent T stack toks acc]: toks ends with the $end token *)
 Fixpoint run (silent : bool) (T : tables) (st : list N) (toks : list token) (acc : list event)
